@@ -53,6 +53,7 @@ type WireRec struct {
 	Time   []int  `json:"time"`
 	T      int64  `json:"t"`
 	Mark   string `json:"mark"`
+	Trid   []int  `json:"trid"` // TestReqID (112) bytes of a TestRequest / of the Heartbeat echoing it
 }
 
 type WireObs struct {
@@ -154,7 +155,10 @@ func (m *gatedMsg) ToBytes() ([]byte, error) {
 
 func wireRec(raw []byte, all *[][]byte, t int64) WireRec {
 	d := MakeDigest(raw)
-	w := WireRec{Ty: d.Ty, Seq: d.Seq, Sender: ints([]byte(d.Sender)), Target: ints([]byte(d.Target)), Time: ints([]byte(d.Time)), T: t}
+	w := WireRec{Ty: d.Ty, Seq: d.Seq, Sender: ints([]byte(d.Sender)), Target: ints([]byte(d.Target)), Time: ints([]byte(d.Time)), T: t, Trid: d.Trid}
+	if w.Trid == nil {
+		w.Trid = []int{}
+	}
 	for i, old := range *all {
 		if bytes.Equal(old, raw) {
 			w.DupOf = i + 1
